@@ -85,7 +85,7 @@ func (l *Lexer) NextToken() Token {
 	var tok Token
 	l.skipWhitespace()
 
-	if l.ch == 0 {
+	if l.ch == 0 && l.position >= len(l.input) {
 		return Token{Type: TokenEOF, Literal: "", Line: l.line, Column: l.column}
 	}
 
